@@ -38,18 +38,22 @@ ASSUMPTIONS = [
 TRUSTED = ["harness/tables/bms.py (layouts -> Tables.bms)"]
 MANIFEST = dict(
     text="Coq 8.16.1: executable Gallina model of BMSMap.read on decoded lines (line classifier, header tables, pair positions "
-         "Fraction(i,k)*4, 03/08 tempo, lane lookup per layout, LNOBJ pop of the last parsed hit, measure-0 override, times through "
-         "the C10/C11 timing model) tied to the code on every run by in-Coq correspondence (exact on fractions.Fraction, and a "
-         "rounded float stream), plus an independent reference interpreter bms_denote (unordered lines, overlay, LN head = closest "
-         "earlier object in time, integration of 60000/bpm) evaluated on every chart the implementation returns. Proved for all "
-         "inputs: base-36/hex id codecs inverse, 3-digit measure codec, position arithmetic (pair i of k at beat 4i/k, equal to the "
-         "oracle's position), header retention (whole file: a header line #K v anywhere in the text, not overwritten later, is retained "
-         "as title/artist/level/LNOBJ/misc whenever the read succeeds); layout obligations (injective, header channels = 02/03/08, "
-         "columns < 18) by vm_compute on the regenerated tables. The whole-file statement is refuted by two machine-checked "
-         "witnesses (out-of-order LN lines; tempo object off the pairwise 1/96 grid) = KNOWN findings, and is checked under the "
-         "guards by correspondence + oracle rather than proved (bms_read_denotes is open).",
-    note="Trusted: Coq kernel+VM, generator/serialiser, gen_tables, shift_jis codec (oracle). Whole-file refinement model = denote "
-         "is NOT proved (checked per run on several hundred generated texts); the proved theorems are component lemmas.",
+         "Fraction(i,k)*4, 03/08 tempo, lane lookup per layout, per-lane stable sort by position then LNOBJ pairing, measure-0 "
+         "override, times through the C10/C11 timing model) tied to the code on every run by in-Coq correspondence (exact on "
+         "fractions.Fraction, and a rounded float stream), plus an independent reference interpreter bms_denote evaluated on every "
+         "chart the implementation returns. Proved: C04_bms_read_denotes -- for every layout and every text in the decidable domain "
+         "read_theorem_domain (tempo objects pairwise on the 1/96 grid, an origin tempo object listed first, every LN tail has a "
+         "head, and the reader's line loop collects the format's object list), lines in any order and overlaid: whenever the read "
+         "returns, hits and holds are lane by lane exactly the objects the format assigns (LN head = preceding object of the lane "
+         "in time), in the lane's column, at the integrated time of the 03/08/#BPM tempo script (via C10's offsets_on_grid_b), with "
+         "WAV[id]; C04_bms_read_header (whole file, outright: a header line #K v not overwritten later is retained as "
+         "title/artist/level/LNOBJ/misc); id/measure codecs inverse; pair position 4i/k; layout obligations by vm_compute on the "
+         "regenerated tables. The domain clause 'line loop collects the format's object list' is evaluated per generated text by "
+         "the runner, not proved from wf_bms_lines. Without the grid guard the statement is refuted by a machine-checked witness "
+         "(KNOWN finding tempo-offgrid-resnap).",
+    note="Trusted: Coq kernel+VM, generator/serialiser, gen_tables, shift_jis codec (oracle). Not proved: the text-level parsing "
+         "refinement (wf_bms_lines -> read_theorem_domain; checked on every generated text), the initial-tempo clause through "
+         "reseat (C11), binary64 rounding (rounded stream, 1e-6 ms).",
     technique="Coq executable model + reference interpreter + vm_compute correspondence against the implementation",
     design="4/C04")
 
@@ -197,14 +201,11 @@ def gen_text(rng, lname):
     data = []
     for (m, ch) in sorted(per):
         tail_here = lnobj is not None and any(ident == lnobj for _, ident in per[(m, ch)])
-        for d in _realise(rng, list(per[(m, ch)]), keep_together=tail_here and rng.random() < 0.92):
+        for d in _realise(rng, list(per[(m, ch)]), keep_together=tail_here and rng.random() < 0.3):
             data.append(f"#{m:03d}{ch}:{d}")
     if rng.random() < 0.05:
         data.append(f"#{rng.randint(0, M):03d}{use[0][0]}:" + rng.choice(["0", "010", "", "00"]))     # odd / empty data
     r = rng.random()
-    has_tail = lnobj is not None and any(ident == lnobj for objs in per.values() for _, ident in objs)
-    if has_tail and r >= 0.6 and rng.random() < 0.85:
-        r = rng.random() * 0.6                           # keep most LN texts in time order (the other order is a known finding)
     if r < 0.45:
         lines = hdr + data                               # time order
     elif r < 0.6:
